@@ -61,6 +61,7 @@ fn main() {
             "C05" => vh::c05::replay(&ctx, &w),
             "C06" => vh::c06::replay(&ctx, &w),
             "C07" => vh::c07::replay(&ctx, &w),
+            "C08" => vh::c08::replay(&ctx, &w),
             "C09" => vh::gen::c09_replay(&ctx, &w),
             "C10" => vh::c10::replay(&ctx, &w),
             "C11" => vh::c11::replay(&ctx, &w),
@@ -83,6 +84,7 @@ fn main() {
             "C05" => vh::c05::main(&ctx),
             "C06" => vh::c06::main(&ctx),
             "C07" => vh::c07::main(&ctx),
+            "C08" => vh::c08::main(&ctx),
             "C09" => vh::gen::c09_main(&ctx, std::env::var("VERIF_REPO_BIN").ok()),
             "C10" => vh::c10::main(&ctx, std::env::var("VERIF_REPO_BIN").ok()),
             "C11" => vh::c11::main(&ctx),
